@@ -2,6 +2,7 @@ package main
 
 import (
 	"fmt"
+	"go/token"
 	"go/types"
 	"strings"
 
@@ -123,7 +124,7 @@ func runC08(c *Ctx, r *Run) {
 						if len(fl) == 1 && fl[0] == "recv.refresh" {
 							// the sampled edge must come from the not-refresh side, the zero edge must not
 							notRefresh := d.Succs[1]
-							if _, neg := iff.Cond.(*ssa.UnOp); neg {
+							if u, isU := iff.Cond.(*ssa.UnOp); isU && u.Op == token.NOT {
 								notRefresh = d.Succs[0]
 							}
 							okSel = true
